@@ -1,3 +1,6 @@
+pub mod doc;
+pub mod idx;
+pub mod conc2;
 pub mod hermes;
 pub mod det;
 pub mod hdr;
@@ -29,6 +32,9 @@ pub fn dispatch(t: &[&str]) -> String {
         "hdr.chunked" | "hdr.splits" | "hdr.dataurl" | "hdr.b64enc" => hdr::run(t),
         "det.locate" | "det.dataurl" | "det.decode" | "det.is_sm" | "det.ser" => det::run(t),
         "hermes.scope" => hermes::run(t),
+        "conc.trace" | "conc.stress" => conc2::run(t),
+        "idx.flatten" | "idx.lookup" => idx::run(t),
+        "doc.dec" | "doc.rt" | "doc.enc" | "doc.prod" => doc::run(t),
         _ => "bad-op".into(),
     }
 }
